@@ -407,6 +407,23 @@ def check_conservation(eng, run, rule="C10.flow"):
     """no byte lost, none duplicated when data is copied out of the protocol's internal buffer: on every loop-free path of the methods
     that lower the fill level, level_after + bytes_handed_out == level_before (linear forms over the level, the caller's buffer
     size and the requested size; min() resolved by the path's own branch conditions; sa/analyses/conserve.py)"""
+    # the region handed to the event loop for the next read is the free tail of the internal buffer: `view[<fill level>:]` where the fill
+    # level is the attribute buffer_updated() adds the received count to - any other region overlaps bytes that were received but not read
+    for ci_ in eng.db.classes.values():
+        gb_, bu_ = ci_.methods.get("get_buffer"), ci_.methods.get("buffer_updated")
+        if gb_ is None or bu_ is None or isinstance(gb_.node, ast.Lambda):
+            continue
+        levels_ = {dotted(a.target) for a in own_nodes(bu_.node) if isinstance(a, ast.AugAssign) and isinstance(a.op, ast.Add) and isinstance(a.target, ast.Attribute)}
+        levels_ = {l.split(".", 1)[1] for l in levels_ if l and "." in l}
+        rets_ = [r for r in own_nodes(gb_.node) if isinstance(r, ast.Return) and isinstance(r.value, ast.Subscript) and isinstance(r.value.slice, ast.Slice)]
+        for r in rets_:
+            sl = r.value.slice
+            low = (dotted(sl.lower) or "").split(".", 1)[-1] if sl.lower is not None else None
+            ok_ = low in levels_ and sl.upper is None and sl.step is None
+            if not ok_:
+                run.finding(rule, gb_, r, f"get_buffer() hands the event loop `{ast.unparse(r.value)[:70]}` instead of the free tail `view[<fill level>:]`: data that arrives while earlier bytes are still "
+                            "unread is written over them")
+            run.ob(rule, f"{gb_.short}:free-tail-only", ok_, fill_level=sorted(levels_))
     from sa.analyses.conserve import check_read_before_compaction
     check_read_before_compaction(eng, run, rule, 1)
     from sa.analyses.conserve import check_function
@@ -715,6 +732,9 @@ def run(eng, run):
     run.tables["shield_names"] = sorted(__import__("sa.summary", fromlist=["SHIELD_NAMES"]).SHIELD_NAMES)
     run.counters["async_functions"] = sum(1 for f in eng.db.all_functions() if f.is_async)
     run.counters["never_suspend"] = sum(1 for f in eng.db.all_functions() if f.is_async and not s.may_suspend(f))
+    from rules import c20
+    from sa.report import RuleAlias as _RA10
+    run.attempt(c20.check_done, eng, _RA10(run, "C10.ack"))  # a waiter is completed at most once: `done()` is the guard, not `cancelled()`
     run.end_of_rules()
 
 
